@@ -342,6 +342,36 @@ def hu_call(job, value):
     return setup()['athlib'].hungarian_score(job['g'], job['inout'], job['ev'], value)
 
 
+def spelled_calls(job):
+    """[(label, callable(value))]: the same job asked with other spellings of its event / gender / competition-type arguments.  A spelling may
+    be refused; where it is answered the answer must be the one of the plain spelling (the event and the mark are the same)."""
+    a = setup()['athlib']
+    out = []
+    ev = job['ev']
+    evs = [(n, e) for n, e in (('lower', ev.lower()), ('padded', ' ' + ev + ' '), ('tab', '\t' + ev), ('upper', ev.upper())) if e != ev]
+    if job['sys'] == 'ty':
+        for n, e in evs:
+            out.append(('event-' + n, lambda v, e=e: a.tyrving_score(job['g'], job['age'], e, v)))
+        for g2 in (job['g'].lower(), {'M': 'male', 'F': 'female'}.get(job['g'], job['g']), {'M': 'Male', 'F': 'W'}.get(job['g'], job['g'])):
+            out.append(('gender-%s' % g2, lambda v, g2=g2: a.tyrving_score(g2, job['age'], ev, v)))
+        out.append(('age-float', lambda v: a.tyrving_score(job['g'], float(job['age']), ev, v)))
+    elif job['sys'] == 'qk':
+        for n, e in evs:
+            out.append(('event-' + n, lambda v, e=e: a.qkids_score(job['ct'], e, v)))
+        for nm in job.get('names', []):
+            for nm2 in dict.fromkeys((nm, nm.lower(), nm.upper(), nm.title())):
+                out.append(('competition-type-name', lambda v, nm2=nm2: a.qkids_score(nm2, ev, v)))
+        out.append(('competition-type-lower', lambda v: a.qkids_score(str(job['ct']).lower(), ev, v)))
+    elif job['sys'] == 'sh':
+        for n, e in evs:
+            out.append(('event-' + n, lambda v, e=e: a.sportshall_score(e, v)))
+    elif job['sys'] == 'bg':
+        for n, e in evs:
+            out.append(('event-' + n, lambda v, e=e: a.bulgarian_score(job['ag'], job['g'], e, v)))
+        out.append(('age-group-lower', lambda v: a.bulgarian_score(str(job['ag']).lower(), job['g'], ev, v)))
+    return out
+
+
 SYSTEMS = dict(
     ty=dict(jobs=ty_jobs, oracle=ty_oracle, forms=ty_forms, call=ty_call, lo=0, hi=None, name='Tyrving'),
     qk=dict(jobs=qk_jobs, oracle=qk_oracle, forms=qk_forms, call=qk_call, lo=10, hi=100, name='QuadKids'),
@@ -416,6 +446,22 @@ def sweep(job):
             else:
                 if isinstance(got, int) and got > 0:
                     acc.nontrivial += 1
+        # other spellings of the arguments, at every 211th mark: refused, or the same points
+        if S['oracle'] is not None and (cs - job['lo']) % 211 == 0 and 'text2' in cur or (S['oracle'] is not None and (cs - job['lo']) % 211 == 0 and 'float' in cur):
+            ref = cur.get('text2', cur.get('float'))
+            val = txt2(cs) if 'text2' in cur else cs / 100.0
+            for label, fn in spelled_calls(job):
+                acc.n += 1
+                try:
+                    got2 = fn(val)
+                except Exception:
+                    acc.add('spelled_arguments_refused')
+                    continue
+                if got2 != ref:
+                    acc.bad('C11:%s:spelling-of-arguments-changes-points:%s' % (job['sys'], label), dict(jid, mark=val, spelling=label),
+                            'plain spelling scores %r, %s scores %r' % (ref, label, got2))
+                else:
+                    acc.add('spelled_arguments_agree')
         # Tyrving: hand-timed never scores more than the same figure timed electronically
         if 'text1-hand' in cur and 'text2' in cur and isinstance(cur['text1-hand'], int) and isinstance(cur['text2'], int):
             if cur['text1-hand'] > cur['text2']:
